@@ -846,6 +846,10 @@ func (s *Sim) Step() {
 		if err := a.n.LeaveVia(b.n); err != nil {
 			c.Fatalf("%s: leave stream %s->%s failed: %v", s.p.Prop, a.id, b.id, err)
 		}
+		// b has acknowledged the notification: it has learned of the leave
+		if nd, ok := b.n.State.Node(a.id); ok && !nd.Left {
+			c.Fatalf("%s: %s acknowledged %s's leave notification but does not see it as left (version %d)", s.p.Prop, b.id, a.id, nd.Version)
+		}
 	case "close":
 		leavers := filter(live, func(n *Node) bool { return n.left })
 		n := s.pickFrom("node", leavers)
